@@ -153,7 +153,10 @@ fn expect_bare(bytes: &[u8], kind: Kind) -> Expect {
             if d.consumed == bytes.len() {
                 Expect::Data(d.data)
             } else {
-                Expect::Open // trailing bytes: the statement does not say
+                // trailing bytes after a complete stream (alignment padding, an end marker): the
+                // statement does not say whether that is accepted, but IF it is, the result must be
+                // exactly the announced data
+                Expect::DataOrErr(d.data)
             }
         }
         Err(LzError::TooShort) => Expect::Err("shorter-than-header"),
@@ -211,7 +214,7 @@ fn check(entry: Entry, bytes: &[u8], what: &str, t: &mut Tally) -> Option<(Strin
                 Expect::Err(c) => *c,
                 Expect::Data(_) => "conforming",
                 Expect::Open => "unspecified",
-                Expect::DataOrErr(_) => "wrapped-lz10",
+                Expect::DataOrErr(_) => "wrapped-lz10-or-trailing-bytes",
             };
             return Some((
                 format!("panic@{}:{}", p.location, cls),
@@ -226,15 +229,15 @@ fn check(entry: Entry, bytes: &[u8], what: &str, t: &mut Tally) -> Option<(Strin
             None
         }
         (Expect::DataOrErr(_), Err(_)) => {
-            t.class("wrapped-lz10-rejected");
+            t.class("open-acceptance:rejected");
             None
         }
         (Expect::DataOrErr(d), Ok(g)) => {
             if d == g {
-                t.class("wrapped-lz10-ok");
+                t.class("open-acceptance:ok");
                 None
             } else {
-                Some((format!("wrong-data:{:?}:wrapped-lz10", entry), format!("{:?}.decompress({}) accepted an LZ10 stream behind the 0x13 wrapper but returned {} bytes that differ from the reference expansion ({} bytes)", entry, what, g.len(), d.len())))
+                Some((format!("wrong-data:{:?}:open-acceptance", entry), format!("{:?}.decompress({}) accepted the input (an LZ10 stream behind the 0x13 wrapper / a stream followed by trailing bytes) but returned {} bytes that differ from the reference expansion ({} bytes)", entry, what, g.len(), d.len())))
             }
         }
         (Expect::Data(d), Ok(g)) => {
@@ -314,6 +317,33 @@ fn run_stream_case(s: &Spec, idx: u64, t: &mut Tally) {
         if e.is_lz13() {
             let r = check(e, &wrapped, "0x13-wrapped stream", t);
             report(r, "wrapped".into(), t);
+        }
+    }
+    // A2. the same tokens behind the 8-byte LZ11 header (24-bit size 0, 32-bit size follows):
+    // the format gives that form no minimum size
+    if s.kind == Kind::Lz11 {
+        let ext = ref_lz::encode_with_header(&toks, s.kind, total, None, true);
+        for e in ENTRIES {
+            if e.is_lz13() {
+                let r = check(e, &ext, "bare stream with the 8-byte header", t);
+                report(r, "ext".into(), t);
+                let r = check(e, &wrap13(&ext), "0x13-wrapped stream with the 8-byte header", t);
+                report(r, "wext".into(), t);
+            }
+        }
+    }
+    // A3. the conforming stream followed by padding (zero bytes to a 4- and 32-byte boundary, one
+    // 0xFF end marker): accepted or not, never more than the announced data
+    if choices.len() <= 3 {
+        for (pi, pad) in [vec![0u8; (4 - stream.len() % 4) % 4 + 4], vec![0u8; 32 - stream.len() % 32], vec![0xFFu8]].iter().enumerate() {
+            let mut p = stream.clone();
+            p.extend_from_slice(pad);
+            for e in ENTRIES {
+                let r = check(e, &p, "conforming stream followed by padding", t);
+                report(r, format!("padded:{}", pi), t);
+            }
+            let r = check(Entry::Lz13, &wrap13(&p), "wrapped stream followed by padding", t);
+            report(r, format!("wpadded:{}", pi), t);
         }
     }
     // B1. strict prefixes
@@ -438,6 +468,14 @@ fn history_streams() -> Vec<Vec<u8>> {
     let lz11 = ref_lz::encode(&with_ref, Kind::Lz11, 309, None);
     let mut v = vec![vec![], vec![0x10], lz10.clone(), lz11.clone(), wrap13(&lz11), vec![0, 0, 0, 0, 9, 9], lz10[..lz10.len() - 1].to_vec(), ref_lz::encode(&[Token::Lit(1), Token::Ref { len: 3, disp: 1 }], Kind::Lz10, 4, Some((1, 5))), ref_lz::encode(&[], Kind::Lz11, 0, None)];
     v.push(ref_lz::encode(&lits, Kind::Lz10, 9, None));
+    // two streams of equal length with the same first and last bytes and one different byte in
+    // the middle (a result cached under a cheap fingerprint of the previous stream would be reused)
+    for kind in [Kind::Lz10, Kind::Lz11] {
+        let mut a: Vec<Token> = (0..600).map(|i| Token::Lit((i * 7 % 251) as u8)).collect();
+        v.push(ref_lz::encode(&a, kind, 600, None));
+        a[300] = Token::Lit(0xEE);
+        v.push(ref_lz::encode(&a, kind, 600, None));
+    }
     v
 }
 
@@ -450,6 +488,16 @@ fn run_case(tier: Tier, fam: &str, idx: u64, t: &mut Tally) {
         for e in ENTRIES {
             if let Some((sig, summary)) = check(e, &b, "arbitrary bytes", t) {
                 t.violate(sig, summary, json!({"family": fam, "index": idx, "hex": util::hex(&b)}));
+            }
+        }
+        return;
+    }
+    if fam == "ext" {
+        let b = ext_nth(idx);
+        t.cases += 1;
+        for (e, bytes) in [(Entry::Lz13, b.clone()), (Entry::Lz13Enum, wrap13(&b)), (Entry::Lz10, b.clone())] {
+            if let Some((sig, summary)) = check(e, &bytes, "LZ11 8-byte header with a short body", t) {
+                t.violate(sig, summary, json!({"family": fam, "index": idx, "hex": util::hex(&bytes)}));
             }
         }
         return;
@@ -518,9 +566,40 @@ fn run_case(tier: Tier, fam: &str, idx: u64, t: &mut Tally) {
     }
 }
 
+/// LZ11 8-byte headers announcing 0 .. 16 MiB+1 bytes followed by every body of ≤ 4 bytes over
+/// {00, 01, 10, 80, FF}: truncated / reference-before-start ⇒ Err, never a panic
+const EXT_SIZES: [u32; 7] = [0, 1, 8, 0xFF_FFFF, 0x100_0000, 0x100_0001, 0x100_1000];
+const EXT_ALPHA: [u8; 5] = [0x00, 0x01, 0x10, 0x80, 0xFF];
+fn ext_count() -> u64 {
+    EXT_SIZES.len() as u64 * (1 + 5 + 25 + 125 + 625)
+}
+fn ext_nth(mut i: u64) -> Vec<u8> {
+    let size = EXT_SIZES[(i % EXT_SIZES.len() as u64) as usize];
+    i /= EXT_SIZES.len() as u64;
+    let mut len = 0usize;
+    loop {
+        let c = 5u64.pow(len as u32);
+        if i < c {
+            break;
+        }
+        i -= c;
+        len += 1;
+    }
+    let mut v = vec![0x11, 0, 0, 0];
+    v.extend_from_slice(&size.to_le_bytes());
+    let mut body = vec![0u8; len];
+    for k in (0..len).rev() {
+        body[k] = EXT_ALPHA[(i % 5) as usize];
+        i /= 5;
+    }
+    v.extend(body);
+    v
+}
+
 fn families(tier: Tier) -> Vec<Family> {
     let mut f: Vec<Family> = specs(tier).iter().map(|s| Family::new(s.tag.clone(), spec_count(s))).collect();
     f.push(Family::new("arb", arb_count()));
+    f.push(Family::new("ext", ext_count()));
     f.push(Family::new("stored", stored_cases().len() as u64));
     f.push(Family::new("lz11huge", HUGE_REFS.len() as u64));
     let h = history_streams().len() as u64;
